@@ -333,6 +333,7 @@ pub fn run(run: &Run) {
 
     par_each(&jobs, |_, job| {
         let f = &job.field;
+        run.watch(&json!({"kind": "row", "a": job.a.to_string(), "p": f.p.to_string()}));
         for op in ALL_UNOPS {
             run.eval(2);
             if job.a > BigUint::one() {
@@ -406,6 +407,24 @@ pub fn replay(case: &Value) -> Vec<Violation> {
                 return Vec::new();
             };
             check_binop(&f, op, &a, &b, None)
+        }
+        Some("row") => {
+            // Re-run every operation of this left operand (used for hang reports).
+            let mut out = Vec::new();
+            let rights: Vec<BigUint> = if f.bits <= 10 {
+                (0..crate::refsem::field::usize_of(&f.p)).map(BigUint::from).collect()
+            } else {
+                boundary_alphabet(&f)
+            };
+            for op in ALL_UNOPS {
+                out.extend(check_unop(&f, op, &a));
+            }
+            for b in &rights {
+                for op in ALL_BINOPS {
+                    out.extend(check_binop(&f, op, &a, b, None));
+                }
+            }
+            out
         }
         Some("unop") | Some("as_bool") => {
             let mut out = Vec::new();
